@@ -16,6 +16,10 @@
 (*   majors  Seq([name, cfg, core: Seq(var)]) the called major alleles      *)
 (*   minors  Seq([name, major, silent: Seq(var)]) their catalogued minors  *)
 (*   call    Seq(major index), one entry per called copy, ascending         *)
+(*   phases  Seq([cnt, at: Seq([si, var])]) read-phase evidence: cnt       *)
+(*           fragments that show, at each listed site (>= 2 sites with a    *)
+(*           considered variant), the considered variant `var' (0: the      *)
+(*           reference or some other change)                                *)
 (* An ASSIGNMENT gives every copy k a minor allele of its major allele and  *)
 (* the set of considered variants the copy is said to carry:                *)
 (*   Seq([minor, carry \subseteq DOMAIN vars]).                             *)
@@ -138,6 +142,23 @@ Penalty(c, A) ==
       c.p.missPen * SumDom(A, LAMBDA k : Cardinality(Missing(c, A[k])))
     + c.p.addPen * SumDom(A, LAMBDA k : Cardinality(Added(c, A[k])))
     + (c.p.addPen \div 2) * Cardinality(NovelCoreAdded(c, A))
-Score(c, d, A) == FitError(c, d, A) + Penalty(c, A)
+(* read-phase disagreement (rule 7): every fragment pattern is attributed to ONE called copy     *)
+(* that has at least two considered variants among the pattern's sites (with gene copies there);   *)
+(* it disagrees once per variant the pattern shows but the copy does not carry, and once per       *)
+(* variant the copy carries at a pattern site although the pattern shows something else            *)
+PatSites(p) == {p.at[i].si : i \in DOMAIN p.at}
+Shown(p, i) == LET K == {x \in DOMAIN p.at : p.at[x].si = i} IN p.at[CHOOSE x \in K : TRUE].var
+Relevant(c, p, j) == {v \in DOMAIN c.vars : c.vars[v].si \in PatSites(p) /\ HasCov(c, j, c.vars[v].si)}
+EligibleCopies(c, A, p) == {k \in DOMAIN A : Cardinality(Relevant(c, p, c.minors[A[k].minor].major)) >= 2}
+Mismatch(c, p, a) ==
+    LET R == Relevant(c, p, c.minors[a.minor].major) IN
+    Cardinality({v \in R : Shown(p, c.vars[v].si) = v /\ v \notin a.carry})
+    + Cardinality({v \in R : Shown(p, c.vars[v].si) # v /\ v \in a.carry})
+PhaseCost(c, A) ==
+    SumDom(c.phases, LAMBDA q :
+        LET p == c.phases[q]
+            E == EligibleCopies(c, A, p)
+        IN IF E = {} THEN 0 ELSE p.cnt * MinSet({Mismatch(c, p, A[k]) : k \in E}))
+Score(c, d, A) == FitError(c, d, A) + Penalty(c, A) + (c.p.phasePen * PhaseCost(c, A))
 NAdded(c, A) == SumDom(A, LAMBDA k : Cardinality(Added(c, A[k])))
 =============================================================================
